@@ -265,7 +265,10 @@ def gen_case(params):
                     elif pk == "list":      kw = {"k": [rid + j for j in range(max(bb, 2))]}   # per-row value as long as the batch
                     elif pk == "dict":      kw = {"k": {"x": rid}}
                     elif pk == "nonevalue": kw = {"k": None}
-                    else:                   kw = {"k": rid, "z": [rid], "info": f"i{rid}"}
+                    else:
+                        # the rows of one batch build their kwargs in different key orders (equal as mappings, different as sequences of values)
+                        items = [("k", rid), ("z", [rid]), ("info", f"i{rid}")]
+                        kw = dict(items[rid % 3:] + items[:rid % 3])
                 row = {"rid": rid, "rep": rid, "v": 0 if same else rid, "n": nn, "idx": rng.randrange(nn),
                        "p": rng.choice([0.5, 0.25, 1.0, 1, 0.125, 0.75]), "w": ws, "kw": kw}
                 seen[key] = row
